@@ -352,15 +352,16 @@ def _unquote(s, what):
 
 
 def read_geogram(text):
-    lines = []
-    for raw in text.split("\n"):
-        s = raw.split("#", 1)[0].strip()
-        if s:
-            lines.append(s)
+    lines = [raw.split("#", 1)[0].strip() for raw in text.split("\n")]
+    while lines and lines[-1] == "":
+        lines.pop()
     pos = 0
 
-    def nxt(what):
+    def nxt(what, raw=False):
+        # blank lines carry nothing, except as the (empty) value of an attribute whose type is text
         nonlocal pos
+        while not raw and pos < len(lines) and lines[pos] == "":
+            pos += 1
         if pos >= len(lines):
             raise RefFormatError("geogram: unexpected end of file while reading " + what)
         pos += 1
@@ -374,6 +375,9 @@ def read_geogram(text):
     order = []
     head = False
     while pos < len(lines):
+        if lines[pos] == "":
+            pos += 1
+            continue
         c = nxt("chunk class")
         if not is_chunk(c):
             raise RefFormatError(f"geogram: expected a chunk class like [ATTR], got {c!r}")
@@ -404,7 +408,8 @@ def read_geogram(text):
             for _ in range(n):
                 row = []
                 for _ in range(dim):
-                    t = nxt(f"values of attribute '{aname}' ({n} x {dim} expected)")
+                    known = tname in _GEO_FLOAT or tname in _GEO_INT or tname == "bool"
+                    t = nxt(f"values of attribute '{aname}' ({n} x {dim} expected)", raw=not known)
                     if is_chunk(t):
                         raise RefFormatError(f"geogram: attribute '{aname}' on '{sname}' has fewer than {n} x {dim} values")
                     if tname in _GEO_FLOAT:
@@ -417,9 +422,12 @@ def read_geogram(text):
                             raise RefFormatError(f"geogram: bool value {v}")
                         row.append(bool(v))
                     else:
-                        raise RefFormatError(f"geogram: element type '{tname}' is not a geogram attribute type")
+                        row.append(t)   # a type the reader does not know (geogram skips such attributes): raw text kept
                 rows.append(row)
-            attrs[(sname, aname)] = {"type": tname, "bytes": bsize, "dim": dim, "values": rows}
+            if bsize < 1:
+                raise RefFormatError(f"geogram: attribute '{aname}' declares element size {bsize}")
+            attrs[(sname, aname)] = {"type": tname, "bytes": bsize, "dim": dim, "values": rows,
+                                     "known_type": tname in _GEO_FLOAT or tname in _GEO_INT or tname == "bool"}
             order.append((sname, aname))
         else:
             # other chunk classes ([CMNT], [CMDL], [EOFL], [SPTR]...): skip to the next chunk
